@@ -59,7 +59,7 @@ position) and a leaf `l` carrying the arc (`rc` in its context set, ssid of `(p_
 `(logp >> SHIFT) + pip`), each a child of the one before in the sense of `fsg_search_pnode_trans`.
 The converse inclusion (the lextree has no other root-to-leaf paths) is `C02_lextree_paths_are_word_arcs`. -/
 theorem C02_multi_phone_instances_in_lextree (li : LexIn) (g : SSVerif.Hist.Fsg) (tm : Nat → Nat) (hsil : li.sil < li.nCi)
-    (htm : SsidTmat li tm)
+    (htm : SsidTmat li g tm)
     (hpron : ∀ s, s < li.nState → ∀ lid ∈ stateArcs g s, 1 ≤ (li.word (g.link lid).wid.toNat).pron.length)
     {s : Nat} (hs : s < li.nState) {lid : Nat} (hlid : lid ∈ stateArcs g s)
     (h2 : 2 ≤ (li.word (g.link lid).wid.toNat).pron.length) {lc : Nat} (hlc : lc ∈ ctxList li ((ctxFlags li g).1.getD s 0)) {rc : Nat}
@@ -101,7 +101,7 @@ of `M` with `instsOfArc M i a w = some insts`:
   that is `L`, each pnode a child of the one before.
 The converse (no other root-to-leaf paths, no other context bits) is `C02_lextree_paths_are_flat_instances`. -/
 theorem C02_flat_instances_in_lextree {M : Model} {li : LexIn} {tm : Nat → Nat} (h : Agree M li) (hl : LookAgree M li)
-    (htm : SsidTmat li tm) {i : Nat} {a : Arc} {w : Word} (hx : (i, a, w) ∈ wordArcs M) {insts : List Inst}
+    (htm : SsidTmat li (fsgOf M) tm) {i : Nat} {a : Arc} {w : Word} (hx : (i, a, w) ∈ wordArcs M) {insts : List Inst}
     (hi : instsOfArc M i a w = some insts) :
     (∀ p, w.pron = [p] → ∀ x ∈ insts, ∃ r ∈ (buildLexTree li (fsgOf M)).roots a.src,
       NodeOf ((buildLexTree li (fsgOf M)).node r) x ∧ (w.filler = true → AllCtx ((buildLexTree li (fsgOf M)).node r))) ∧
@@ -150,7 +150,7 @@ word's position `j`, and `q k` is a word-final pnode that carries the arc (every
 of the arc's target state, `ssid = rssid p_k p_{k−1} c`, entry `(logp >> SHIFT) + pip`).  Proof: the parents of a pnode never
 change after it is hooked, and are either the roots of ONE shared set or ONE pnode (`ParOf`), so a path up from a leaf can only
 be the chain recorded for the leaf's arc (`path_unique`). -/
-theorem C02_lextree_paths_are_word_arcs (li : LexIn) (g : SSVerif.Hist.Fsg) (tm : Nat → Nat) (hsil : li.sil < li.nCi) (htm : SsidTmat li tm)
+theorem C02_lextree_paths_are_word_arcs (li : LexIn) (g : SSVerif.Hist.Fsg) (tm : Nat → Nat) (hsil : li.sil < li.nCi) (htm : SsidTmat li g tm)
     (hpron : ∀ s, s < li.nState → ∀ lid ∈ stateArcs g s, 1 ≤ (li.word (g.link lid).wid.toNat).pron.length)
     {s : Nat} (hs : s < li.nState) (k : Nat) (q : Nat → Nat) (h0 : q 0 ∈ (buildLexTree li g).roots s)
     (hch : ∀ j, j < k → q (j + 1) ∈ (buildLexTree li g).children (q j)) (hleaf : ((buildLexTree li g).node (q k)).leaf = true) :
@@ -168,7 +168,7 @@ phones, carried by the leaf (`link = i`), and its instances `insts`, such that
   word-internal instance of position `j`; for EVERY bit `c` of the leaf's context set `q k` is the word-final instance with
   right context `c`. -/
 theorem C02_lextree_paths_are_flat_instances {M : Model} {li : LexIn} {tm : Nat → Nat} (h : Agree M li) (hl : LookAgree M li)
-    (htm : SsidTmat li tm) (hall : ∀ i a w, (i, a, w) ∈ wordArcs M → ∃ insts, instsOfArc M i a w = some insts)
+    (htm : SsidTmat li (fsgOf M) tm) (hall : ∀ i a w, (i, a, w) ∈ wordArcs M → ∃ insts, instsOfArc M i a w = some insts)
     {s : Nat} (hs : s < li.nState) (k : Nat) (q : Nat → Nat) (h0 : q 0 ∈ (buildLexTree li (fsgOf M)).roots s)
     (hch : ∀ j, j < k → q (j + 1) ∈ (buildLexTree li (fsgOf M)).children (q j))
     (hleaf : ((buildLexTree li (fsgOf M)).node (q k)).leaf = true) :
@@ -190,7 +190,7 @@ theorem C02_lextree_paths_are_flat_instances {M : Model} {li : LexIn} {tm : Nat 
 inclusions in one statement (equality as sets of keys (arc, lc, rc, presented phones, per-position (ssid, tmat, entry)); this
 is the driver's per-case `lexCompare`, for every FSG, dictionary and lookups with `Agree`, `LookAgree`, `SsidTmat`, `hall`). -/
 theorem C02_lextree_paths_eq_flat_instances {M : Model} {li : LexIn} {tm : Nat → Nat} (h : Agree M li) (hl : LookAgree M li)
-    (htm : SsidTmat li tm) (hall : ∀ i a w, (i, a, w) ∈ wordArcs M → ∃ insts, instsOfArc M i a w = some insts) :
+    (htm : SsidTmat li (fsgOf M) tm) (hall : ∀ i a w, (i, a, w) ∈ wordArcs M → ∃ insts, instsOfArc M i a w = some insts) :
     -- flat ⊆ lextree
     (∀ i a w insts, (i, a, w) ∈ wordArcs M → instsOfArc M i a w = some insts →
       (∀ p, w.pron = [p] → ∀ x ∈ insts, ∃ r ∈ (buildLexTree li (fsgOf M)).roots a.src,
@@ -285,7 +285,7 @@ theorem exLook : LookAgree exM exLi := by
     exact h
   · intro pl pp r ss h; simp only [exM, Option.some.injEq] at h; exact h
 
-theorem exTm : SsidTmat exLi (fun _ => 7) := fun _ _ => rfl
+theorem exTm : SsidTmat exLi (fsgOf exM) (fun _ => 7) := fun _ _ _ _ _ _ => rfl
 
 theorem exAll : ∀ i a w, (i, a, w) ∈ wordArcs exM → ∃ insts, instsOfArc exM i a w = some insts := by
   intro i a w hx
